@@ -231,6 +231,8 @@ class ScriptBuilder:
     def electrical_idle(self):
         """the LTSSM switches the transmitter off for a while in the middle of the stream (whatever is pending), then a new
         COM-led sync word starts the next judged stretch"""
+        if len(self.words) < 20:
+            return                     # the pipeline latency is measured on the very first sync word: keep that one on the pins
         self.res.bin("electrical_idle_mid_stream")
         if self.owed >= 2:
             self.res.bin("electrical_idle_with_backlog")
